@@ -128,6 +128,30 @@ pub fn oracle(case: &[u8], obs: &mut Obs) -> Result<(), Fail> {
     };
     ensure!(want_f32.map(f32::to_bits) == got.map(f32::to_bits) || (alt_f32.is_some() && alt_f32.map(f32::to_bits) == got.map(f32::to_bits)), sig_class("f32"), "from_str::<f32>({:?}) = {:?}, expected {:?} (f64 result narrowed once{})", lit, got, want_f32, alt_f32.map(|a| format!(", or the exact integer narrowed once: {a:?}")).unwrap_or_default());
 
+    // --- the same literal behind an escaped string in a tuple / sequence read by one deserializer: what
+    // the string left in the deserializer's scratch space must not reach the number
+    {
+        let text = format!("[\"\\u0034\\u0032\", {lit}, \"x\\ty\", {lit}]");
+        macro_rules! after_string {
+            ($t:ty) => {{
+                let want: Option<$t> = sonic_rs::from_str::<$t>(lit).ok();
+                let got = sonic_rs::from_str::<(String, $t, String, $t)>(&text).ok().map(|t| (t.1, t.3));
+                let same = match (&want, &got) {
+                    (Some(w), Some((a, b))) => format!("{w:?}") == format!("{a:?}") && format!("{w:?}") == format!("{b:?}"),
+                    (None, None) => true,
+                    _ => false,
+                };
+                ensure!(same, sig_class(concat!("after-string/", stringify!($t))), "from_str::<(String,{0},String,{0})>({text:?}) gives {got:?}, the bare literal gives {want:?}", stringify!($t));
+            }};
+        }
+        after_string!(u128);
+        after_string!(i128);
+        after_string!(u64);
+        after_string!(i64);
+        after_string!(u8);
+        after_string!(f64);
+    }
+
     // --- Number and Value classification
     let check_number = |ctx: &'static str, n: Option<Number>| -> Result<(), Fail> {
         match (&class, n) {
@@ -274,6 +298,18 @@ fn perturbations(mid: &str, emit: &mut dyn FnMut(&[u8]) -> bool) -> bool {
     if !emit(mid.as_bytes()) {
         return false;
     }
+    // very long zero tails (beyond any fixed digit buffer: 768, 800), with and without a final sticky digit
+    if mid.contains('.') && mid.len() < 40 {
+        for n in [700usize, 745, 752, 760, 766, 767, 768, 769, 800, 1100] {
+            let z = "0".repeat(n);
+            for tail in ["", "1"] {
+                let s = format!("{mid}{z}{tail}");
+                if !emit(s.as_bytes()) {
+                    return false;
+                }
+            }
+        }
+    }
     // extended with zeros / a trailing nonzero
     for ext in ["0", "000000", "1", "0000000000000000000000001", "9"] {
         let s = format!("{mid}{ext}");
@@ -353,6 +389,12 @@ fn perturbations(mid: &str, emit: &mut dyn FnMut(&[u8]) -> bool) -> bool {
             let s2 = format!("{}e{}", sig, exp - (sig.len() as i32 - 1));
             if !emit(s2.as_bytes()) {
                 return false;
+            }
+            // every spelling of the exponent: explicit plus sign, upper-case marker, zero padding
+            for s3 in [format!("{}.{}E{:+}", &sig[..1], if sig.len() > 1 { &sig[1..] } else { "0" }, exp), format!("{}.{}e{:+03}", &sig[..1], if sig.len() > 1 { &sig[1..] } else { "0" }, exp), format!("0.{}e{:+}", sig, exp + 1), format!("{}E{:+}", sig, exp - (sig.len() as i32 - 1))] {
+                if !emit(s3.as_bytes()) {
+                    return false;
+                }
             }
         }
     }
